@@ -10,42 +10,53 @@ use crate::dump::{Flat, PView, idx, port_str};
 
 /// The C19 dependency graph, built from the flat graph by the *specification*:
 /// non-delayed pipe edges + reference edges (producer handoff -> borrower, borrower -> pipe consumer of
-/// the handoff) + access-order edges (earlier group -> later group) + loop-ingress / block-contiguity
-/// edges (an outer sender precedes every node of the loop block it sends into).  `src -> dst`.
+/// the handoff) + access-order edges (earlier group -> later group) + block-contiguity edges: a `loop {}`
+/// block runs as one unit, so for every dependency `s -> d` above whose `d` lies in a loop block that does
+/// not contain `s`, `s` precedes every node directly inside the outermost such block.  `src -> dst`.
 pub fn dep_edges(f: &Flat) -> BTreeSet<(u64, u64)> {
-    let mut es = BTreeSet::new();
+    let mut base: Vec<(u64, u64)> = Vec::new();
     for e in &f.edges {
         if e.delay.is_none() {
-            es.insert((e.src, e.dst));
-            if let Some(dl) = f.node(e.dst).lp {
-                if f.node(e.src).lp == f.loop_parent(dl) {
-                    for l in &f.loops {
-                        if l.id == dl {
-                            for &i in &l.nodes {
-                                if f.nodes.iter().any(|n| n.id == i) {
-                                    es.insert((e.src, i));
-                                }
-                            }
-                        }
-                    }
-                }
-            }
+            base.push((e.src, e.dst));
         }
     }
     for r in &f.refs {
         if let Some(t) = r.target {
-            es.insert((t, r.node));
+            base.push((t, r.node));
             if f.is_hoff(t) {
                 for e in &f.edges {
                     if e.src == t {
-                        es.insert((r.node, e.dst));
+                        base.push((r.node, e.dst));
                     }
                 }
             }
         }
     }
-    for (a, b) in access_pairs(f) {
-        es.insert((a, b));
+    base.extend(access_pairs(f));
+    // chain of loops around a node, innermost first
+    let chain = |n: u64| -> Vec<u64> {
+        let mut out = Vec::new();
+        let mut l = f.node(n).lp;
+        while let Some(x) = l {
+            out.push(x);
+            l = f.loop_parent(x);
+        }
+        out
+    };
+    let mut es: BTreeSet<(u64, u64)> = base.iter().copied().collect();
+    for &(s, d) in &base {
+        let around_s = chain(s);
+        // loops around `d` that are not around `s`; the last one is the outermost
+        let block = chain(d).into_iter().take_while(|l| !around_s.contains(l)).last();
+        if let Some(b) = block {
+            for l in f.loops.iter().filter(|l| l.id == b) {
+                for &i in &l.nodes {
+                    if f.nodes.iter().any(|n| n.id == i) {
+                        es.insert((s, i));
+                    }
+                }
+            }
+        }
     }
     es
 }
@@ -98,7 +109,6 @@ pub fn check_c19(rec: &mut Recorder, f: &Flat, out: &crate::dump::POut) {
     let es = dep_edges(f);
     let ids: Vec<u64> = f.nodes.iter().map(|n| n.id).collect();
     let cyc = has_cycle(&ids, &es);
-    let delayed_self_edge = f.edges.iter().any(|e| e.delay.is_some() && e.src == e.dst);
     rec.count(if cyc { "dep-cyclic" } else { "dep-acyclic" });
     match out {
         crate::dump::POut::Ok(_) => {
@@ -125,8 +135,6 @@ pub fn check_c19(rec: &mut Recorder, f: &Flat, out: &crate::dump::POut) {
                 // a node in two consecutive access groups of one handoff: a self-dependency, rejected by assert
                 rec.check(cyc, "c19-panic-conflicted-refs-acyclic", "assert fired but dependency graph is acyclic");
                 rec.count("panic-conflicted-refs");
-            } else if w == "no-merge-pair-same-node" && !cyc && delayed_self_edge {
-                rec.check(false, "c19-panic-delayed-self-edge", "acyclic dependency graph (only a delayed self-edge) but SubgraphMerge::new asserts a != b");
             } else {
                 rec.check(false, &format!("c19-panic@{w}"), "partition_graph panicked");
             }
@@ -319,7 +327,8 @@ pub fn check_c18(rec: &mut Recorder, f: &Flat, pv: &PView) {
     }
     // --- barrier / access-order pairs are in different subgraphs
     for e in &f.edges {
-        if e.delay.is_some() && !f.is_hoff(e.src) {
+        // (a delayed self-edge `d -> d` stays in its subgraph; its delay-marked handoff is checked above)
+        if e.delay.is_some() && !f.is_hoff(e.src) && e.src != e.dst {
             rec.check(p.node_subgraph(f.node(e.src).key) != p.node_subgraph(f.node(e.dst).key), "c18-barrier-pair-same-subgraph", "");
         }
     }
@@ -357,11 +366,11 @@ pub fn check_c18(rec: &mut Recorder, f: &Flat, pv: &PView) {
         if let Some(prod) = producer_of(t) {
             if !f.is_hoff(prod) {
                 // is the borrower inside a loop block that does not contain the referenced handoff?
-                // (`make_loops_contiguous` hoists such a block; reference edges get no loop-ingress ordering edge)
+                // (`make_loops_contiguous` hoists such a block as a whole)
                 let bl = f.node(r.node).lp;
                 let hoisted = bl.is_some() && !inside(f.node(t).lp, bl.unwrap());
-                let sig = if hoisted { "c18-reference-before-producer@loop-block-hoist" } else { "c18-reference-before-producer" };
-                rec.check(sgpos(f.node(prod).key) < sgpos(f.node(r.node).key), sig, &format!("producer {} borrower {}", prod, r.node));
+                rec.count(if hoisted { "ref-into-loop-block" } else { "ref-same-level" });
+                rec.check(sgpos(f.node(prod).key) < sgpos(f.node(r.node).key), "c18-reference-before-producer", &format!("producer {} borrower {}", prod, r.node));
             }
         }
         if f.is_hoff(t) {
@@ -375,23 +384,21 @@ pub fn check_c18(rec: &mut Recorder, f: &Flat, pv: &PView) {
                         let ns = p.subgraph(sg);
                         ns.iter().position(|&x| x == b) < ns.iter().position(|&x| x == c)
                     });
-                    // consumer inside a loop block that does not contain the borrower: the block is hoisted by
-                    // `make_loops_contiguous`, reference edges get no block-contiguity ordering edge (finding F18)
                     let cl = f.node(e.dst).lp;
-                    let hoisted = cl.is_some() && !inside(f.node(r.node).lp, cl.unwrap());
-                    let sig = if hoisted { "c18-consumer-before-borrower@loop-block-hoist" } else { "c18-consumer-before-borrower" };
-                    rec.check(sgpos(b) < sgpos(c) || within, sig, &format!("borrower {} consumer {}", r.node, e.dst));
+                    if cl.is_some() && !inside(f.node(r.node).lp, cl.unwrap()) {
+                        rec.count("borrower-outside-consumer-loop-block");
+                    }
+                    rec.check(sgpos(b) < sgpos(c) || within, "c18-consumer-before-borrower", &format!("borrower {} consumer {}", r.node, e.dst));
                 }
             }
         }
     }
     for (a, b) in access_pairs(f) {
-        // later-group member inside a loop block that does not contain the earlier-group member: the block is hoisted
-        // (same root cause as the reference findings F18: only pipe edges get block-contiguity ordering edges)
         let bl = f.node(b).lp;
-        let hoisted = bl.is_some() && !inside(f.node(a).lp, bl.unwrap());
-        let sig = if hoisted { "c18-access-group-order@loop-block-hoist" } else { "c18-access-group-order" };
-        rec.check(sgpos(f.node(a).key) < sgpos(f.node(b).key), sig, &format!("{a} {b}"));
+        if bl.is_some() && !inside(f.node(a).lp, bl.unwrap()) {
+            rec.count("access-group-into-loop-block");
+        }
+        rec.check(sgpos(f.node(a).key) < sgpos(f.node(b).key), "c18-access-group-order", &format!("{a} {b}"));
     }
     // --- loops contiguous (every loop with all its descendants)
     let sg_loop: Vec<Option<u64>> = order.iter().map(|&s| p.node_loop(p.subgraph(s)[0]).map(idx)).collect();
